@@ -116,7 +116,9 @@ static int run_one (OrcProgram *p, ProgSpec *ps, RunCfg *rc, VResult *r, const c
   v_stage (r, "compare");
   if (arena_compare (&an, &ae, ps, rc, &exn, &exe, msg, sizeof msg)) {
     char sig[V_SIG_MAX];
-    snprintf (sig, sizeof sig, "mismatch%s target=%s first_op=%s", ps->ldres_shared ? "-ldres-shared-source" : "",
+    snprintf (sig, sizeof sig, "mismatch%s target=%s first_op=%s",
+        ps->ldres_shared ? "-special-load-shared-source" : ps->acc_nonarray ? "-acc-nonarray-source" :
+        (!strcmp (tname, "mmx") && ps->has_64 && ps->has_special_load) ? "-mmx-64bit-special-load" : "",
         tname, ps->ins[0].op->name);
     v_fail (r, sig, "native != emulation: %s", msg);
     bad = 1;
@@ -174,12 +176,13 @@ void vprop_case (VChoices *c, VResult *r)
     snprintf (key, sizeof key, "op:%s:%s", tnames[t], ps.ins[0].op->name);
     if (v_excluded (key)) { r->excluded++; r->verdict = V_DISCARD; return; }
   }
-  if (t == 2 && ps.has_64 && v_excluded ("mmx-64bit")) { r->excluded++; r->verdict = V_DISCARD; return; }
+  if (t == 2 && ps.has_64 && ps.has_special_load && v_excluded ("mmx-64bit-special-load")) { r->excluded++; r->verdict = V_DISCARD; return; }
 
   v_stage (r, "compile target=%s", tnames[t]);
   p = ps_build (&ps);
   res = orc_program_compile_full (p, target, flags);
   v_desc (r, "# compile result: %s\n", v_result_name (res));
+  if (v_arg ("dump", NULL) && p->asm_code) fprintf (stderr, "%s\n", p->asm_code);
   if (!ORC_COMPILE_RESULT_IS_SUCCESSFUL (res)) {
     r->verdict = V_DISCARD;
     r->hash = h;
